@@ -32,6 +32,10 @@ CHECKS["C09"] = ("other", "path-complete bounded execution of the real detectCyc
   "trusted: go/ssa, the interpreter fork, stubs for the parser/generator/os.Create under processFile; refusals arising inside the parser (Bind, field extraction, Set flattening) are reached only by the CLI gates (go/types and packages.Load are not executable in the interpreter); bounds: graphs <= 4 nodes, <= 3 providers over <= 3 type tokens, 2 files",
   "symbolic interpreter over go/ssa: path-complete bounded execution (forks on nondeterministic inputs; the quantifier is program structure, so solver work is feasibility only) + CLI gates", "§5 C09")
 
+CHECKS["C10"] = ("other", "path-complete bounded execution of the real NewGraph + Graph.Build + injectContextArg + generateInjectorDecl on every declaration with 2 (thorough: 3) providers over real go/types named types (Async/fallible bits, requirement subsets, two unsupplied argument types, context.Context, requirement order), asserting the signature rule on the resulting ast.FuncDecl; plus a gate comparing the go/types signature of every generated corpus function with the reference evaluator",
+  "trusted: go/ssa, the interpreter fork (go/types itself is interpreted; sync/atomic and sync.Mutex inside it stubbed as sequential); bounds: <= 3 providers, <= 2 unsupplied argument types + context.Context; larger declarations only through the corpus gate",
+  "symbolic interpreter over go/ssa: path-complete bounded execution (the quantifier is program structure; forks on nondeterministic inputs, no solver work) + corpus signature gate", "§5 C10")
+
 NA_REASON = "check under construction in this session (DESIGN.md §10 build order); not claimed yet"
 
 def main():
